@@ -96,21 +96,37 @@ type Env struct {
 var (
 	regMu    sync.Mutex
 	registry = map[string]*Env{}
-	hookOnce sync.Once
 )
 
+// DefaultOnEvent, when set, receives the I/O events of databases that are not driven through an Env
+// (used by the concurrent-program checks to yield at every I/O call).
+var DefaultOnEvent func(ev *bolt.VerifEvent) error
+
 func installHook() {
-	hookOnce.Do(func() {
-		bolt.SetVerifHook(func(ev *bolt.VerifEvent) error {
-			regMu.Lock()
-			e := registry[ev.Path]
-			regMu.Unlock()
-			if e == nil {
-				return nil
+	bolt.SetVerifHook(func(ev *bolt.VerifEvent) error {
+		regMu.Lock()
+		e := registry[ev.Path]
+		d := DefaultOnEvent
+		regMu.Unlock()
+		if e == nil {
+			if d != nil {
+				return d(ev)
 			}
-			return e.onEvent(ev)
-		})
+			return nil
+		}
+		return e.onEvent(ev)
 	})
+}
+
+// InstallHook (re-)installs the dispatcher.
+func InstallHook() { installHook() }
+
+// SetDefaultOnEvent sets DefaultOnEvent under the registry lock.
+func SetDefaultOnEvent(f func(ev *bolt.VerifEvent) error) {
+	regMu.Lock()
+	DefaultOnEvent = f
+	regMu.Unlock()
+	installHook()
 }
 
 // ShmDir returns a fresh directory on tmpfs.
